@@ -70,6 +70,7 @@ type PtrV struct {
 	Cell  int
 	Path  []string   // PSub: field names / constant indices into the cell value
 	Elem  types.Type // pointee type
+	Ext   Term       // PByte derived from an array field: number of bytes from this pointer to the end of the array
 }
 
 // StructV: struct value with named fields (nodeRef, node, codec structs, ...).
